@@ -1017,4 +1017,22 @@ Section Bare.
       { unfold fb_iter. cbn [fb_state sB2]. unfold fb_step, fb_gA. change (ccls_of 44) with KComma. unfold fb_comma. rewrite Hmv. reflexivity. }
       rewrite E. reflexivity.
   Qed.
+
+  (* the star value: "*" blanks end-of-line *)
+  Definition fStar (i0 : N) : pfrom := mkpfrom pf0 (mkpf i0 1) pf0 true false false h 0 0 pf0 (mkpf i0 1) EOk 0 FbFIN 0 0 0 0 0.
+  Theorem nameaddr_star_eol (junk sp : list byte) x tail : spaces sp -> is_sp x = false ->
+    let i0 := nnat (length junk) in
+    parse_nameaddr h (junk ++ (42 : byte) :: sp ++ CR :: LF :: x :: tail) i0 pfrom0 = Done (i0 + 1 + nnat (length sp) + 2) EOk (fStar i0).
+  Proof.
+    intros Hsp Hx i0. unfold parse_nameaddr. rewrite parse_at.
+    set (s1 := mkpfrom pf0 pf0 pf0 false false false 0 0 0 pf0 (mkpf i0 1) EOk 0 FbStar i0 0 0 0 0).
+    rewrite (run_one it _ 42 _ i0 pfrom0 s1).
+    2:{ unfold fb_iter. cbn [fb_state pfrom0]. unfold fb_step, fb_gA. change (ccls_of 42) with KStar. cbn [is_st_init]. unfold pf_set.
+        replace (i0 + 1 <? i0) with false by lia. replace (i0 + 1 - i0) with 1 by lia. reflexivity. }
+    rewrite run_after. destruct (eol_first sp x tail Hsp) as (c0 & r & Er & Hc0).
+    assert (E : it ((42 : byte) :: rev junk) (sp ++ CR :: LF :: x :: tail) (i0 + 1) s1 = Ret (i0 + 1 + nnat (length sp) + nnat 2) EOk (fStar i0)).
+    { rewrite Er. apply ws_class in Hc0. unfold fb_iter. cbn [fb_state s1]. unfold fb_step, fb_gStar. rewrite Hc0. unfold fb_lws. rewrite <- Er.
+      rewrite (skipLWS_sp_eol sp x tail Hsp Hx). reflexivity. }
+    rewrite E. cbn [after]. f_equal; try reflexivity; unfold nnat; lia.
+  Qed.
 End Bare.
